@@ -81,6 +81,10 @@ func (a *API) SearchPromises(id string, state string, tags map[string]string, li
 			return nil, RequestValidationError(err)
 		}
 
+		if cursor.Next == nil {
+			return nil, RequestValidationError(errors.New("The field cursor is invalid."))
+		}
+
 		return cursor.Next, nil
 	}
 
@@ -146,6 +150,10 @@ func (a *API) SearchSchedules(id string, tags map[string]string, limit int, curs
 		cursor, err := t_api.NewCursor[t_api.SearchSchedulesRequest](cursor)
 		if err != nil {
 			return nil, RequestValidationError(err)
+		}
+
+		if cursor.Next == nil {
+			return nil, RequestValidationError(errors.New("The field cursor is invalid."))
 		}
 
 		return cursor.Next, nil
